@@ -33,6 +33,8 @@ impl Space {
                     "FB" => fam::fb_count(k),
                     "FU" => fam::fu_count(),
                     "FW" => fam::fw_count(),
+                    "FM" => fam::fm_count(),
+                    "FR" => fam::fr_count(),
                     _ => panic!("unknown family {name}"),
                 },
             })
@@ -56,6 +58,8 @@ impl Space {
                     "FB" => fam::fb_decode(idx, p.k),
                     "FU" => fam::fu_decode(idx),
                     "FW" => fam::fw_decode(idx),
+                    "FM" => fam::fm_decode(idx),
+                    "FR" => fam::fr_decode(idx),
                     _ => unreachable!(),
                 };
                 return (p.name, g);
